@@ -224,6 +224,44 @@ func c11(c *Ctx) {
 		}
 		if msg, class := c11Compare(list, replies, port, names); msg != "" {
 			c.Res.Violate("C11:hook:"+class, "GetDevices: "+msg, w, int64(i))
+		} else if i%3 == 0 && len(list) > 0 {
+			// the application works on the entries it was given - masks the addresses in place - one entry at a time: no other entry
+			// of the list changes with it (duplicates are entries of their own), and the next poll of the same site through the same
+			// client reports what the controllers sent, not what the application made of the last result
+			before := make([]string, len(list))
+			for k := range list {
+				before[k] = fmt.Sprintf("%v %v %v %v", list[k].IpAddress, list[k].SubnetMask, list[k].Gateway, list[k].MacAddress)
+			}
+			shared := ""
+			for k := range list {
+				for _, ip := range []net.IP{list[k].IpAddress, list[k].SubnetMask, list[k].Gateway} {
+					for q := range ip {
+						ip[q] ^= 0xa5
+					}
+				}
+				for q := range list[k].MacAddress {
+					list[k].MacAddress[q] ^= 0x5a
+				}
+				for j := k + 1; j < len(list) && shared == ""; j++ {
+					if now := fmt.Sprintf("%v %v %v %v", list[j].IpAddress, list[j].SubnetMask, list[j].Gateway, list[j].MacAddress); now != before[j] {
+						shared = fmt.Sprintf("entry %d (serial %d) changed from %s to %s when the application wrote into the addresses of entry %d (serial %d)", j, list[j].SerialNumber, before[j], now, k, list[k].SerialNumber)
+					}
+				}
+			}
+			c.Res.Eval(1)
+			if shared != "" {
+				c.Res.Violate("C11:hook:entries-share-storage", "GetDevices: "+shared, w, int64(i))
+			} else {
+				d.Reset()
+				d.Script = func(adapter.Invocation) ([][]byte, error) { return raw, nil }
+				again, err2 := u.GetDevices()
+				if err2 != nil {
+					c.Res.Violate("C11:noise-fails-call", "GetDevices (second poll through the same client) failed: "+err2.Error(), w, int64(i))
+				} else if msg, class := c11Compare(again, replies, port, names); msg != "" {
+					c.Res.Violate("C11:hook:"+class+":second-poll", "GetDevices, polled again through the same client after the application had written into the entries of the first result: "+msg, w, int64(i))
+				}
+				c.Res.Count("hook:second-polls-after-the-application-edited-the-first-result", 1)
+			}
 		}
 		if i%4999 == 0 {
 			c.Res.Sample(map[string]any{"layer": "hook", "classes": seq, "entries": len(list), "broadcast": cfg.Broadcast})
